@@ -469,7 +469,7 @@ def run(ctx):
                 "Non-trivial = at least one cell with two or more points and at least one point outside the area; "
                 "distinct = distinct (area, coordinates, data, configuration)")
     r = ctx.rng
-    ncases = ctx.n(240, 2500)
+    ncases = ctx.n(240, 1500)
     cases = [gen_lattice_case(r, w, h, ctx.n(2, 4), fx, fy, ctx.n(2, 3))
              for (w, h) in ctx.n([(2, 2)], [(2, 2), (3, 2), (1, 3)]) for fx in (False, True) for fy in (False, True)]
     cases += [gen_case(r, big=ctx.thorough, nchunkings=ctx.n(2, 3)) for _ in range(ncases)]
